@@ -201,10 +201,14 @@ pub fn c10(ctx: &Ctx) -> PropResult {
     for src in crate::props6::native_list_freshness_family() {
         cases.push(run_case(src, "native-list-freshness"));
     }
+    // (appended) ill-typed operations on long texts with multi-byte characters at every offset
+    for src in crate::props6::long_operand_family() {
+        cases.push(run_case(src, "long-operands"));
+    }
     let stats = run_cases(&ctx.driver, cases, &no_panic_oracle, &no_known, ctx.threads);
     PropResult {
         stats,
-        rule: format!("registry-driven sweep: every procedure of CORE, MATH, STRING, MAP, IO, STYLE, TIME found in the live registry (except INPUT*/RANDOM/TIME, see C12/C15) applied to argument tuples over {} exemplars per position (all tuples when they fit the budget, otherwise every exemplar at every position plus random tuples); every statement form applied to every exemplar; random stateful programs calling library procedures; in-process under catch_unwind with a statement budget; non-trivial = ended normally or with a runtime error; the same call site run twice with the name re-bound in between (user procedure with fewer parameters / IMPORT of the library module, both orders); library procedures that build lists called twice with the first result changed in between; 64 texts that are fragments of number syntax through the text procedures; the type of every result (r == \"\" + r, LENGTH(r)) besides its text", EXEMPLARS.len()),
+        rule: format!("registry-driven sweep: every procedure of CORE, MATH, STRING, MAP, IO, STYLE, TIME found in the live registry (except INPUT*/RANDOM/TIME, see C12/C15) applied to argument tuples over {} exemplars per position (all tuples when they fit the budget, otherwise every exemplar at every position plus random tuples); every statement form applied to every exemplar; random stateful programs calling library procedures; in-process under catch_unwind with a statement budget; non-trivial = ended normally or with a runtime error; the same call site run twice with the name re-bound in between (user procedure with fewer parameters / IMPORT of the library module, both orders); library procedures that build lists called twice with the first result changed in between; 64 texts that are fragments of number syntax through the text procedures; the type of every result (r == \"\" + r, LENGTH(r)) besides its text; ill-typed operations on long texts with multi-byte characters at every offset", EXEMPLARS.len()),
         exhaustive: false,
         notes: vec![],
     }
@@ -399,10 +403,13 @@ pub fn c14(ctx: &Ctx) -> PropResult {
     for src in crate::props6::combining_marks_family() {
         cases.push(run_case(src, "combining-marks"));
     }
+    for src in crate::props6::for_each_line_structure() {
+        cases.push(run_case(src, "for-each-line-structure"));
+    }
     let stats = run_cases(&ctx.driver, cases, &oracle, &no_known, ctx.threads);
     PropResult {
         stats,
-        rule: format!("every string of length <= {max} over {{a, b, blank, é, 中, 😀}} through all one-argument STRING procedures, LENGTH / FOR EACH / largest valid index consistency, a sample of patterns of length <= 2 for CONTAINS / STARTS_WITH / ENDS_WITH / SPLIT / JOIN / REPLACE with the law JOIN(SPLIT(s,p),p) = s evaluated in-language, SUBSTRING with start / length over {{-1, 0, 0.5, 1, 1.9, 2, LENGTH, LENGTH+1, NaN, inf}}; TO_NUMBER / TO_BOOL on 27 spellings; random Unicode strings incl. case-mapping specials (ß, İ, ǅ, ﬁ) and Unicode blanks; non-trivial = ended normally or with a runtime error; SPLIT called twice with the first result changed in between; fragments of number syntax; texts with LF / CR LF / lone CR / tabs through SPLIT / JOIN / REPLACE / CONTAINS / TRIM; JOIN over lists of length 0 .. 2 of every element kind with the result's type observed; texts with combining marks, emoji modifiers, flag sequences, joiners and variation selectors"),
+        rule: format!("every string of length <= {max} over {{a, b, blank, é, 中, 😀}} through all one-argument STRING procedures, LENGTH / FOR EACH / largest valid index consistency, a sample of patterns of length <= 2 for CONTAINS / STARTS_WITH / ENDS_WITH / SPLIT / JOIN / REPLACE with the law JOIN(SPLIT(s,p),p) = s evaluated in-language, SUBSTRING with start / length over {{-1, 0, 0.5, 1, 1.9, 2, LENGTH, LENGTH+1, NaN, inf}}; TO_NUMBER / TO_BOOL on 27 spellings; random Unicode strings incl. case-mapping specials (ß, İ, ǅ, ﬁ) and Unicode blanks; non-trivial = ended normally or with a runtime error; SPLIT called twice with the first result changed in between; fragments of number syntax; texts with LF / CR LF / lone CR / tabs through SPLIT / JOIN / REPLACE / CONTAINS / TRIM; JOIN over lists of length 0 .. 2 of every element kind with the result's type observed; texts with combining marks, emoji modifiers, flag sequences, joiners and variation selectors; FOR EACH over texts with CR LF / CR / LF"),
         exhaustive: false,
         notes: vec!["Σ (final-sigma rule of to_lowercase) is excluded from the alphabets: the model's TO_LOWER is context-free".into()],
     }
@@ -706,10 +713,13 @@ pub fn c16(ctx: &Ctx) -> PropResult {
     for src in crate::props6::huge_keys_family() {
         cases.push(run_case(src, "huge-keys"));
     }
+    for src in crate::props6::big_map_family() {
+        cases.push(run_case(src, "big-map"));
+    }
     let stats = run_cases(&ctx.driver, cases, &oracle, &no_known, ctx.threads);
     PropResult {
         stats,
-        rule: "histories of MAP_INSERT / MAP_GET / MAP_CONTAINS_KEY on two maps with keys {1, 1.0, 0, -0, \"1\", TRUE, FALSE, NULL, NaN, 2, \"\", \"a\", 0.5}: all histories of length 2 (after an initial insert; quick: a sample), random histories of length 3-40, each followed by the sizes of MAP_KEYS / MAP_VALUES and a membership probe per key; every non-map value as the map argument of every MAP procedure; every result line compared with the model (association list proved equal to the ideal finite map); MAP_KEYS / MAP_VALUES called twice with the first result changed in between (filled, empty, new map); values equal to the stored one but distinguishable (0 / -0, equal-contents lists); stored lists that come out of MAP_GET / MAP_INSERT / MAP_VALUES changed through the result and through the original; maps as values of maps (itself, an alias, another, lists of maps); key pairs that agree to nine decimals but are different numbers in the language; whole-number keys beyond the 64-bit integers".into(),
+        rule: "histories of MAP_INSERT / MAP_GET / MAP_CONTAINS_KEY on two maps with keys {1, 1.0, 0, -0, \"1\", TRUE, FALSE, NULL, NaN, 2, \"\", \"a\", 0.5}: all histories of length 2 (after an initial insert; quick: a sample), random histories of length 3-40, each followed by the sizes of MAP_KEYS / MAP_VALUES and a membership probe per key; every non-map value as the map argument of every MAP procedure; every result line compared with the model (association list proved equal to the ideal finite map); MAP_KEYS / MAP_VALUES called twice with the first result changed in between (filled, empty, new map); values equal to the stored one but distinguishable (0 / -0, equal-contents lists); stored lists that come out of MAP_GET / MAP_INSERT / MAP_VALUES changed through the result and through the original; maps as values of maps (itself, an alias, another, lists of maps); key pairs that agree to nine decimals but are different numbers in the language; whole-number keys beyond the 64-bit integers; maps of 100 .. 2050 entries".into(),
         exhaustive: !ctx.quick(),
         notes: vec!["numeric keys that are == in the language but not IEEE-equal (within epsilon), and infinite keys, are outside the generator: known finding, see known_findings.txt".into()],
     }
@@ -838,10 +848,20 @@ pub fn c17(ctx: &Ctx) -> PropResult {
         }
         Ok(!matches!(r.end, End::Fuel))
     };
+    // (appended) drawings of one pose before and after the grid changed elsewhere; numeric characters that are not
+    // ASCII digits are unknown symbols
+    for src in crate::props6::robot_redraw_family() {
+        cases.push(run_case(src, "redraw"));
+    }
+    for sym in ["٣", "²", "½", "１", "Ⅷ", "①", "𝟙"] {
+        for grid in [format!("n{sym}"), format!("{sym}n"), format!("n.\\n{sym}."), format!("n{sym}x")] {
+            cases.push(run_case(format!("IMPORT MOD \"ROBOT\"\nr <- ROBOT_MAP(\"{grid}\")\nDISPLAY(r == NULL)\nDISPLAY(FORMAT_ROBOT_ASCII(r))\nDISPLAY(MOVE_FORWARD(r))\n"), "numeric-symbols"));
+        }
+    }
     let stats = run_cases(&ctx.driver, cases, &oracle, &no_known, ctx.threads);
     PropResult {
         stats,
-        rule: "random grids up to 3x4 over {#, ., x, 1, 2, 3, blank, @, ',', X, robot markers in both cases}, ragged lines, LF / CRLF, trailing newline, with one robot (85%), none, two, or an unknown symbol / 0 digit; random command sequences of length 1-10 (rotations, guarded and unguarded MOVE_FORWARD); after every command the ASCII rendering and CAN_MOVE in all four directions (and an unknown direction word) are displayed; checkpoint corridors incl. out-of-order, repeated and skipped numbers; every ROBOT procedure on every argument exemplar; unguarded moves into a wall must end the run as the specified termination, with the earlier output intact; all output compared with the model; grids whose rightmost columns are blank in every line, walked systematically; lines made of white space other than blanks (tab, CR, VT, FF, no-break, ideographic and em space)".into(),
+        rule: "random grids up to 3x4 over {#, ., x, 1, 2, 3, blank, @, ',', X, robot markers in both cases}, ragged lines, LF / CRLF, trailing newline, with one robot (85%), none, two, or an unknown symbol / 0 digit; random command sequences of length 1-10 (rotations, guarded and unguarded MOVE_FORWARD); after every command the ASCII rendering and CAN_MOVE in all four directions (and an unknown direction word) are displayed; checkpoint corridors incl. out-of-order, repeated and skipped numbers; every ROBOT procedure on every argument exemplar; unguarded moves into a wall must end the run as the specified termination, with the earlier output intact; all output compared with the model; grids whose rightmost columns are blank in every line, walked systematically; lines made of white space other than blanks (tab, CR, VT, FF, no-break, ideographic and em space); drawings of one pose before and after the grid changed elsewhere; numeric characters that are not ASCII digits".into(),
         exhaustive: false,
         notes: vec![],
     }
